@@ -139,7 +139,7 @@ def lastRun (pts : List Pt) : List Pt :=
   | none => []
   | some q => (pts.reverse.takeWhile (fun p => p.time == q.time)).reverse
 
-/-- what the node must emit on arrival of the `i`-th message, given everything before it -/
+/-- what the node must emit on arrival of a message, given everything that arrived before it -/
 def specAt (cfg : Cfg) (before : List Msg) : Msg → List Out
   | .batch b => specBatch cfg b
   | .point gtags p =>
@@ -159,11 +159,12 @@ def specAt (cfg : Cfg) (before : List Msg) : Msg → List Out
       | none => []
       | some q => if q.time == p.time then [] else specAgg cfg gtags q.time (lastRun prev) false
 
-def spec (cfg : Cfg) (ms : List Msg) : List Out :=
-  (List.range ms.length).flatMap (fun i =>
-    match ms[i]? with
-    | some m => specAt cfg (ms.take i) m
-    | none => [])
+/-- the outputs for `ms`, arriving after the history `before` -/
+def specFrom (cfg : Cfg) (before : List Msg) : List Msg → List Out
+  | [] => []
+  | m :: rest => specAt cfg before m ++ specFrom cfg (before ++ [m]) rest
+
+def spec (cfg : Cfg) (ms : List Msg) : List Out := specFrom cfg [] ms
 
 /-! ### typing: the documented kind of every emitted value -/
 
